@@ -177,6 +177,19 @@ class Obj(Ty):
         self.name = f"Obj[{cls}]"
 
 
+class Multi(Ty):
+    """Python tuple with components of any (also composite) types, e.g. `return g, id_to_edge`: held component-wise (SV.items)."""
+    scalar = False
+
+    def __init__(self, *ts):
+        self.ts = list(ts)
+        self.name = "Multi[" + ",".join(t.name for t in ts) + "]"
+
+
+def sv_multi(items):
+    return SV(Multi(*[x.ty for x in items]), items=list(items))
+
+
 def parse_ty(s, aliases=None):
     """'Int', 'Opt[Real]', 'Map[Tup,Int]', 'Pair[Int,Tup]', 'Obj[Hypergraph]', plus aliases such as 'Key'."""
     s = s.strip()
@@ -203,6 +216,8 @@ def parse_ty(s, aliases=None):
             cur += ch
     parts.append(cur)
     args = [parse_ty(p, aliases) if head != "Obj" else p.strip() for p in parts]
+    if head == "Multi":
+        return Multi(*args)
     if head == "Map" and isinstance(args[1], Obj):
         return ObjMap(args[0], args[1].cls)
     return {"Opt": Opt, "Map": Map, "Bag": Bag, "Set": Set, "Seq": Seq, "Pair": Pair, "Obj": Obj}[head](*args)
